@@ -250,9 +250,10 @@ class Codec:
                 cheksum_base = self.SOH.join(msg[:-1])
                 checksum = (sum([ord(i) for i in cheksum_base]) + 1) % 256
 
-                try:
+                if len(value) == 3 and value.isascii() and value.isdigit():
                     msg_checksum = int(value)
-                except ValueError:
+                else:
+                    # CheckSum is always exactly three decimal digits
                     msg_checksum = -1
 
                 if checksum != msg_checksum:
